@@ -3,7 +3,7 @@ CONSTANTS Tables = {"a", "b"}
           GroupOf <- Groups1
           MaxFile = 2
           Sizes = {1, 2}
-          MaxItems = 3
+          MaxItems = 2
           MaxBatch = 2
           MaxCrashes = 1
           TailBeyondSync = FALSE
